@@ -26,6 +26,9 @@ def expr_text(e):
   if op == "if":
     c = e[1]
     return "if(%s %s %s, %s, %s)" % (expr_text(c[1]), c[0], expr_text(c[2]), expr_text(e[2]), expr_text(e[3]))
+  if op == "assign_then":
+    # exprtk statement list: 'name := expr; body' (the value of the formula is that of its last statement)
+    return "%s := %s; %s" % (e[1], expr_text(e[2]), expr_text(e[3]))
   raise KeyError(op)
 
 
